@@ -616,6 +616,106 @@ def _r_dotdot(kind: str, spelling: str):
 DOTDOT_BUILDERS: T.Dict[str, T.Callable] = {dotdot_rule_id(k, sp): _r_dotdot(k, sp) for k in DOTDOT_KINDS for sp in DOTDOT_SPELLINGS}
 
 
+# ------------------------------------------------------------------------------------------------------------
+# A directory that two rules SHARE (family M).  install_emptydir.yaml: "Installs a new directory entry to the location specified
+# ... If the directory exists and is not empty, the contents are left in place", install_mode: "the file mode ... for the created
+# directory".  The usual way to give a POPULATED directory a mode of its own is an install_emptydir(P, install_mode: M) beside the
+# rule that installs into P (or below P).  Only the install_emptydir rule declares a mode for P (the install_mode of the other
+# rules is "for the installed files"), so P must end up with M - whichever rule is declared first, whichever runs first, and
+# whether or not P is there before the install (made by `mkdir -p`, a packaging tool, or an install of an earlier revision of
+# the project that declared no mode).  place: P is the other rule's destination directory ('dest'), its parent ('ancestor'), or
+# - install_subdir only - the installed tree's own top directory ('top').
+SHARED_KINDS = ('alone', 'data', 'headers', 'man', 'subdir', 'symlink', 'ct')
+SHARED_PLACES = {'alone': ('-',), 'subdir': ('dest', 'ancestor', 'top')}
+SHARED_ORDERS = ('dir-first', 'dir-last')
+SHARED_CELLS = [(k, p, o) for k in SHARED_KINDS for p in SHARED_PLACES.get(k, ('dest', 'ancestor'))
+                for o in (SHARED_ORDERS if k != 'alone' else ('dir-first',))]
+DIR_MODE_SRC = {'unset': None, 'sym': "'rwxrwxrwt'", 'suid': "['rwsr-x--T', 0, 0]"}
+DIR_MODE_BITS = {'unset': None, 'sym': 0o1777, 'suid': 0o5750}
+
+
+def shared_rule_id(kind: str, place: str, order: str) -> str:
+    return 'shared:%s:%s:%s' % (kind, place, order)
+
+
+def _r_shared(kind: str, place: str, order: str):
+    def build(s, m, ab):
+        r = Rule(shared_rule_id(kind, place, order), s, m)
+        r.key_class = 'shared-directory:emptydir+%s:%s' % (kind, place)
+        r.needs_c = kind == 'ct'
+        below = nm(s, 'below')
+        if kind == 'man':
+            P = 'share/man/man1' if place == 'dest' else 'share/man'      # {mandir}/man{num}
+            D = 'share/man/man1'
+        else:
+            P = 'share/' + nm(s, 'shr')
+            D = P if place in ('dest', 'top') else P + '/' + below
+        other: T.List[Entry] = []
+        if kind == 'alone':
+            call = None
+        elif kind == 'data':
+            f = nm(s, 'sd', '.txt')
+            r.files[f] = ('shared data\n', 0o640)
+            call = 'install_data(%s, install_dir: %s%s)' % (q(f), q(D), _modekw(m))
+            w = ('rel', D + '/' + f)
+            other.append(Entry(w, 'file', r, src=('src', f), mode=MODE_BITS[m]))
+            r.plan.append(('data', ('src', f), w, None))
+        elif kind == 'headers':
+            h = nm(s, 'sh', '.h')
+            r.files[h] = ('#define SHARED 1\n', 0o644)
+            call = 'install_headers(%s, install_dir: %s%s)' % (q(h), q(D), _modekw(m))
+            w = ('rel', D + '/' + h)
+            other.append(Entry(w, 'file', r, src=('src', h), mode=MODE_BITS[m], tag='devel'))
+            r.plan.append(('headers', ('src', h), w, 'devel'))
+        elif kind == 'man':
+            f = nm(s, 'sm', '.1')
+            r.files[f] = ('.TH SM 1\n', 0o644)
+            call = 'install_man(%s%s)' % (q(f), _modekw(m))
+            w = ('rel', D + '/' + f)
+            other.append(Entry(w, 'file', r, src=('src', f), mode=MODE_BITS[m], tag='man'))
+            r.plan.append(('man', ('src', f), w, 'man'))
+        elif kind == 'subdir':
+            top, a, b = nm(s, 'stree'), nm(s, 'sa', '.txt'), nm(s, 'sb', '.txt')
+            r.files[top + '/' + a] = ('shared tree a\n', 0o640)
+            r.files[top + '/in/' + b] = ('shared tree b\n', 0o644)
+            if place == 'top':
+                D = 'share/' + nm(s, 'sbase')
+                P = D + '/' + top
+            call = 'install_subdir(%s, install_dir: %s%s)' % (q(top), q(D), _modekw(m))
+            for sub in ('', '/in'):
+                other.append(Entry(('rel', D + '/' + top + sub), 'dir', r))
+            for rel in (a, 'in/' + b):
+                other.append(Entry(('rel', D + '/' + top + '/' + rel), 'file', r, src=('src', top + '/' + rel), mode=MODE_BITS[m]))
+            r.plan.append(('install_subdirs', ('src', top), ('rel', D + '/' + top), None))
+        elif kind == 'symlink':
+            ln = nm(s, 'sl')
+            call = 'install_symlink(%s, pointing_to: %s, install_dir: %s)' % (q(ln), q('../starget'), q(D))
+            other.append(Entry(('rel', D + '/' + ln), 'link', r, target='../starget'))
+        elif kind == 'ct':
+            o = nm(s, 'so', '.dat')
+            r.files['s_gen.sh'] = ('echo "shared output" > "$1"\n', 0o644)
+            call = ("custom_target(%s, output: %s, command: ['sh', files('s_gen.sh'), '@OUTPUT@'], install: true, install_dir: %s, "
+                    "install_tag: 'custom'%s)") % (q(nm(s, 'sct')), q(o), q(D), _modekw(m))
+            w = ('rel', D + '/' + o)
+            other.append(Entry(w, 'file', r, src=('build', o), mode=MODE_BITS[m], tag='custom'))
+            r.plan.append(('targets', ('build', o), w, 'custom'))
+        else:
+            raise ValueError(kind)
+        edir = 'install_emptydir(%s%s)' % (q(P), '' if DIR_MODE_SRC[m] is None else ', install_mode: ' + DIR_MODE_SRC[m])
+        own = [Entry(('rel', P), 'dir', r, mode=DIR_MODE_BITS[m])]
+        lines = [edir] + ([call] if call else [])
+        r.entries = own + other
+        if order == 'dir-last':
+            lines.reverse()
+            r.entries = other + own
+        r.snippet = '\n'.join(lines)
+        return r
+    return build
+
+
+SHARED_BUILDERS: T.Dict[str, T.Callable] = {shared_rule_id(*c): _r_shared(*c) for c in SHARED_CELLS}
+
+
 NAME_BUILDERS: T.Dict[str, T.Callable] = {
     name_rule_id(sh, st, ex, dk): _r_subdir_name(sh, st, ex, dk)
     for sh in NAME_SHAPES for st in NAME_STRIPS for ex in NAME_EXCLS for dk in NAME_DIRKINDS}
@@ -885,7 +985,7 @@ def make_project(rules: T.Sequence[T.Tuple[str, str, str]], absbase: str, with_s
         elif rid in LINK_BUILDERS or rid in DOTDOT_BUILDERS:
             out.append((LINK_BUILDERS.get(rid) or DOTDOT_BUILDERS[rid])(s, m, absbase, prefix=prefix))
         else:
-            out.append((BUILDERS.get(rid) or EXTRA_BUILDERS.get(rid) or NAME_BUILDERS[rid])(s, m, absbase))
+            out.append((BUILDERS.get(rid) or EXTRA_BUILDERS.get(rid) or SHARED_BUILDERS.get(rid) or NAME_BUILDERS[rid])(s, m, absbase))
     return Project(out, with_sub, sub_style)
 
 
